@@ -2,6 +2,7 @@ import QF.Drv.Parse
 import QF.Core.Compare
 import QF.Spec.Render
 import QF.Spec.Sql
+import QF.Drv.FilterMirror
 /-
 Driver section "hist": replays a frame-history transcript through the spec.
 Every `R` line (the implementation's observation) is compared with what the
@@ -20,6 +21,7 @@ inductive Obs where
 inductive Expect where
   | exact (r : Res) (collapseNaN : Bool)
   | exactAlt (r : Res) (collapseNaN : Bool) (alt : Res) (tag : String)   -- `alt`: what a recorded finding produces instead
+  | filtered (r : Res) (mirror : Option (List Nat)) (f : LFrame)    -- spec result and what the Filter mirror predicts
   | sorted (f : LFrame) (os : List Order)
   | distinct (f : LFrame) (gbNull : Bool) (keys : List Bytes)
   | groupAgg (r : Res)
@@ -322,10 +324,10 @@ def judgeCore (exp : Expect) (obs : Obs) : Verdict :=
     | .exact .err _ => { ok := true }
     | .groupAgg .err => { ok := true }
     | .exact (.ok f) _ | .groupAgg (.ok f) => { ok := false, kind := "errdiff", detail := s!"got Err, spec gives {showFrame f}" }
-    | .sorted .. | .distinct .. | .exactAlt .. => { ok := false, kind := "errdiff", detail := "got Err, spec gives a frame" }
+    | .sorted .. | .distinct .. | .exactAlt .. | .filtered .. => { ok := false, kind := "errdiff", detail := "got Err, spec gives a frame" }
   | .frame g =>
     match exp with
-    | .skip _ | .exactAlt .. => { ok := true }
+    | .skip _ | .exactAlt .. | .filtered .. => { ok := true }
     | .sticky => { ok := false, kind := "errdiff", detail := s!"error not sticky: source had Err, result is {showFrame g}" }
     | .exact .err _ | .groupAgg .err => { ok := false, kind := "errdiff", detail := s!"spec rejects the request (Err), got {showFrame g}" }
     | .exact (.ok f) collapse =>
@@ -348,6 +350,14 @@ def judgeCore (exp : Expect) (obs : Obs) : Verdict :=
 
 def judge (exp : Expect) (obs : Obs) : Verdict :=
   match exp with
+  | .filtered r mirror f =>
+    let v := judgeCore (.exact r false) obs
+    if !v.ok then v
+    else
+      -- the spec is satisfied; does the mirror model of QFrame.filter / And / Or / Not predict the same?
+      let mirrorRes : Res := match mirror with | some rows => .ok (f.pick rows) | none => .err
+      let w := judgeCore (.exact mirrorRes false) obs
+      if w.ok then v else { ok := false, mirror := true, kind := "filter", detail := s!"the Filter mirror (kernel shapes and Inverse table from today's source) predicts {showRes mirrorRes}; implementation and spec agree on another result" }
   | .exactAlt r collapse alt tag =>
     let v := judgeCore (.exact r collapse) obs
     if v.ok then v
@@ -390,7 +400,7 @@ def expectOp (s : HState) (src : Option LFrame) (op : String) : P (Expect × Opt
   match op with
   | "filter" =>
     let c ← parseClause
-    return (.exact (filterS lo f c) false, none)
+    return (.filtered (filterS lo f c) (mirrorFilter lo f c) f, none)
   | "sort" =>
     let k ← nat
     let os ← many k (do
